@@ -44,11 +44,11 @@ MANIFEST = dict(
          "tier), extraction+OCaml driver (cross-checked in-kernel on a sub-sample), Rust harness, Python oracle. Repaired in "
          "/repo: usize underflows (F3), range validation order (F14), zero-argument string/string-append. Not claimed: "
          "list->string on improper lists, char-ci beyond ASCII, digit-value beyond ASCII, optional range arguments of "
-         "string->vector/vector->string. Axioms: 36 theorems are closed under the global context; the 5 about "
+         "string->vector/vector->string. Axioms: 38 theorems are closed under the global context; the 5 about "
          "integer->char and make-string report ClassicalDedekindReals.sig_not_dec, ClassicalDedekindReals.sig_forall_dec, "
          "FunctionalExtensionality.functional_extensionality_dep and Classical_Prop.classic, which come with Flocq's "
          "definitions of f64 floor/trunc used by the Float arm of Number::is_integer/to_u32 (no axiom is used by the string "
-         "theorems themselves). OPEN: C15_string_list_heap_stmt (the heap list built by string->list).",
+         "theorems themselves). No OPEN statement.",
     technique="Rocq/Coq proof (refinement of byte-offset code to lists of scalars) + model/implementation correspondence check")
 
 # coqc parses the kernel cross-check's long list literals recursively: give the children stack
